@@ -472,17 +472,29 @@ class RewriteAllReferences(Target):
         offset = c.one_of('import_to_stage', [0, 1])
         spelling = c.one_of('spelling', ['absolute', 'relative'])
         a = 'stage0.A' if spelling == 'absolute' else 'A'
-        value = 'run %s:ref %s/out.txt:copy stage0.B:output data/x.dat:copy stage0.A:loopref' % (a, a)
+        shape = c.one_of('text', ['plain', 'overlapping-names'])
+        if shape == 'plain':
+            value = 'run %s:ref %s/out.txt:copy stage0.B:output data/x.dat:copy stage0.A:loopref' % (a, a)
+        else:
+            # two looped components, the name of one is the tail of the other's (fake_A / A), the longer one mentioned first
+            fa = 'stage0.fake_A' if spelling == 'absolute' else 'fake_A'
+            value = 'sum %s:output %s:output x-%s:ref' % (fa, a, a)
         known = {(offset, 'outside')}
-        looped = {(offset, 'A'), (offset, 'B')}
-        return State(args=[value, {}, known, 0, offset], kwargs={'iter_number': it, 'looped_ids': looped}, it=it, offset=offset)
+        looped = {(offset, 'A'), (offset, 'B'), (offset, 'fake_A')}
+        return State(args=[value, {}, known, 0, offset], kwargs={'iter_number': it, 'looped_ids': looped}, it=it, offset=offset,
+                     shape=shape)
 
     def ensures(self, c, st, out):
         if out.kind == 'raise':
             return [('no-exception', False)]
         i, o = st.it, st.offset
-        want = 'run stage%d.%d#A:ref stage%d.%d#A/out.txt:copy stage%d.%d#B:output data/x.dat:copy stage%d.A:loopref' % (o, i, o, i, o, i, o)
-        return [('looped-references-point-to-the-same-iteration-others-are-left-alone', out.value == want)]
+        if st.shape == 'plain':
+            want = 'run stage%d.%d#A:ref stage%d.%d#A/out.txt:copy stage%d.%d#B:output data/x.dat:copy stage%d.A:loopref' % (o, i, o, i, o, i, o)
+            return [('looped-references-point-to-the-same-iteration-others-are-left-alone', out.value == want)]
+        # every reference is rewritten as a whole token: `A:output` inside `fake_A:output` is not a reference to A
+        got = out.value.split(' ')
+        return [('a-reference-whose-name-ends-with-another-name-is-rewritten-as-itself',
+                 len(got) == 4 and got[1] == 'stage%d.%d#fake_A:output' % (o, i) and got[2] == 'stage%d.%d#A:output' % (o, i))]
 
     def cross_compare(self, *a):
         return []
